@@ -960,6 +960,22 @@ type c03Deep struct {
 	X int64
 }
 
+// c03IdIn, c03Ids: byte arrays of fixed length - the shape of onet's own identifiers (`[16]byte`
+// tree, roster, token, server ids) - as direct fields, inside a nested and inside a repeated message.
+type c03IdIn struct {
+	Tag [4]byte
+	S   string
+}
+
+type c03Ids struct {
+	ID    [16]byte
+	N     int64
+	Short [3]byte
+	In    c03IdIn
+	L     []c03IdIn
+	One   [1]byte
+}
+
 // c03schema derives the schema text of Model/C03Wire.lean from a Go type.
 func c03schema(t reflect.Type) string {
 	switch t.Kind() {
@@ -982,6 +998,10 @@ func c03schema(t reflect.Type) string {
 			return "y"
 		}
 		return "r" + c03schema(t.Elem())
+	case reflect.Array:
+		if t.Elem().Kind() == reflect.Uint8 {
+			return fmt.Sprintf("a%d", t.Len())
+		}
 	case reflect.Ptr:
 		return "o" + c03schema(t.Elem())
 	case reflect.Struct:
@@ -998,6 +1018,7 @@ var c03pbMakers = []func() interface{}{
 	func() interface{} { return &c03Inner{} }, func() interface{} { return &c03Nested{} },
 	func() interface{} { return &c03Ints{} }, func() interface{} { return &c03Bytes{} },
 	func() interface{} { return &c03Opt{} }, func() interface{} { return &c03Deep{} },
+	func() interface{} { return &c03Ids{} },
 }
 
 func c03pbMaker(schema string) func() interface{} {
@@ -1038,6 +1059,12 @@ func c03pbShow(v reflect.Value, lossless *bool) string {
 			l = append(l, c03pbShow(v.Index(i), lossless))
 		}
 		return "[" + strings.Join(l, ",") + "]"
+	case reflect.Array:
+		b := make([]byte, v.Len())
+		for i := range b {
+			b[i] = byte(v.Index(i).Uint())
+		}
+		return "x" + h.Hex(b)
 	case reflect.Ptr:
 		if v.IsNil() {
 			return "~"
@@ -1403,10 +1430,27 @@ func c03genR4(g *c03g, emit func(class string, ops ...string)) {
 	// ---- layer 2: the wire format itself. Valid encodings of every shape, damaged ones, arbitrary
 	// bytes, two encodings back to back (later entries override / append)
 	pbValue := func() interface{} {
-		switch r.Intn(6) {
+		switch r.Intn(7) {
 		case 0:
 			v := c03inner(r)
 			return &v
+		case 6:
+			v := &c03Ids{N: c03edge64[r.Intn(len(c03edge64))]}
+			if r.Intn(4) > 0 {
+				copy(v.ID[:], c03bytes(r, 16))
+				copy(v.Short[:], c03bytes(r, 3))
+				copy(v.In.Tag[:], c03bytes(r, 4))
+				v.One[0] = byte(r.Intn(3))
+			}
+			v.In.S = string(c03bytes(r, r.Intn(5)))
+			for i := r.Intn(4); i > 0; i-- {
+				e := c03IdIn{S: string(c03bytes(r, r.Intn(4)))}
+				if r.Intn(3) > 0 {
+					copy(e.Tag[:], c03bytes(r, 4))
+				}
+				v.L = append(v.L, e)
+			}
+			return v
 		case 1:
 			for {
 				if v, kind := c03value(r); kind == "nested" || kind == "ints" || kind == "bytes" || kind == "empty" {
